@@ -25,6 +25,8 @@ Not decided: that the parsed list equals the source list, hoisted inner names fo
     kindmap(m, ctx);
     wrap(m, ctx);
     defname(m, ctx);
+    // anonymous nested types are emitted wherever they are referred to (shared with C01.defined)
+    crate::rules::c01::defined(m, ctx, "C02.nested");
 }
 
 /// C02.defname: "DEFAULT components carry a default function" — the function named by the `default = "..."` annotation,
